@@ -226,9 +226,12 @@ def parse_casstype_args(typestring):
             else:
                 names.append(None)
 
-            try:
+            # an integer is only expected as the dimension of a vector; elsewhere an all-digit token
+            # is a (hex-encoded) name, e.g. the user type 'test' is 74657374
+            enclosing = args[-2][0][-1] if len(args) > 1 and args[-2][0] else None
+            if tok.isdigit() and isinstance(enclosing, type) and issubclass(enclosing, VectorType):
                 ctype = int(tok)
-            except ValueError:
+            else:
                 ctype = lookup_casstype_simple(tok)
             types.append(ctype)
 
